@@ -95,9 +95,9 @@ func (c *conn) Close() error {
 // Returns any error encountered while closing the stream.
 func (c *conn) terminate(err error) error {
 	c.cancel(err) // Cancel the server context
-	if tx := c.tx.Swap(chan txMsg(nil)); tx != nil && tx != chan txMsg(nil) {
-		close(tx.(chan txMsg))
-	}
+	// The tx channel is detached but not closed: a concurrent send() may already hold it and would
+	// panic with "send on closed channel". The writeloop and senders observe c.ctx.Done() instead.
+	c.tx.Swap(chan txMsg(nil))
 	return c.stream.Close() // Close the connection
 }
 
